@@ -21,6 +21,9 @@ TABLE_APP = [
     {"file": CV, "fn": "ceil_div", "lean": "cv_ceil_div", "model": "MM.ceilDiv"},
     {"file": CV, "fn": "new", "impl": "Conv2dHelper", "lean": "cv_new", "model": "MM.CHelper.new"},
     {"file": CV, "fn": "output_terms", "impl": "Conv2dHelper", "lean": "cv_output_terms", "model": "MM.cvOutputTerms"},
+]
+
+TABLE_APP_BATCH = [
     # ---- src/util/basic.rs `reverse_bits_u64`, src/batch_encoder.rs `BatchEncoder::new`: the `matrix_reps_index_map` loop (fragment: the function
     # as a whole works on a context; free variables of the run: `slots` = poly_modulus_degree, `logn` = get_power_of_two(slots))
     {"file": UB, "fn": "reverse_bits_u64", "lean": "reverse_bits_u64", "model": "brev"},
@@ -28,6 +31,9 @@ TABLE_APP = [
      "consts": {"GALOIS_GENERATOR": "src/util/galois.rs"}, "fncalls": {"util::reverse_bits_u64": (UB, "reverse_bits_u64")},
      "fragment": {"start": "matrix_reps_index_map = vec![0; slots];", "count": 6, "params": [("slots", USZ), ("logn", USZ)],
                   "prologue": "let mut matrix_reps_index_map = vec![];", "result": "matrix_reps_index_map", "ret": ("vec", USZ)}},
+]
+
+TABLE_APP_LWE = [
     # ---- src/app/lwe.rs: index / loop arithmetic of the LWE tools (fragments; evaluator calls are opaque steps recorded in a plan)
     {"file": LW, "fn": "extract_lwe", "impl": "Evaluator", "lean": "lwe_extract_shift", "model": "shift of extractLwe",
      "fragment": {"start": "let shift = if term == 0", "count": 1, "params": [("term", USZ), ("poly_modulus_degree", USZ)],
@@ -45,6 +51,11 @@ TABLE_APP = [
                   "result": "plan", "ret": ("vec", USZ)}},
 ]
 
+# One generated file per property (per-file failure isolation: a construct outside the subset in lwe.rs must not raise an alarm for C20 / C11),
+# plus the shared prelude (loop combinators, checked primitives), which has no source dependence.
 FILES = [
-    ("AppFns.lean", {"ns": "GenApp", "app_mode": True, "imports": ["Heathcliff.Model.Matmul"], "table": TABLE_APP}),
+    ("AppPrelude.lean", {"ns": "GenApp", "app_mode": True, "prelude_file": True, "imports": ["Heathcliff.Model.Word"], "table": []}),
+    ("AppFns.lean", {"ns": "GenApp", "app_mode": True, "imports": ["Heathcliff.Gen.AppPrelude", "Heathcliff.Model.Matmul"], "table": TABLE_APP}),
+    ("AppBatchFns.lean", {"ns": "GenApp", "app_mode": True, "imports": ["Heathcliff.Gen.AppPrelude"], "table": TABLE_APP_BATCH}),
+    ("AppLweFns.lean", {"ns": "GenApp", "app_mode": True, "imports": ["Heathcliff.Gen.AppPrelude"], "table": TABLE_APP_LWE}),
 ]
